@@ -21,6 +21,25 @@ Property theorems (namespace `Gms.C15`), for ALL tables, states, call sequences,
                            key values (only locations are ever overwritten) — this is why the
                            finding's region speaks about locations only.
 
+Row aliasing (model `Gms/Model/RowAlias.lean`: rows as Go slices over backing arrays, the
+`INSERT … ON DUPLICATE KEY UPDATE` path `append(oldRow, newRow...)` → `SetField.Eval`* →
+`updateAcc[:len(oldRow)]` → `updater.Update`), for ALL memories, capacities, allocator slack,
+tables and statements:
+
+* `stored_cells_never_written`   a statement (failed or not) leaves the first `n` cells and the
+                                 length of every backing array that existed before untouched
+                                 (`Frame`), although `append` may run in place on a stored row;
+* `readers_unaffected`           …so every row anybody still holds (the statement snapshot, another
+                                 session's copy of the table, an earlier result set) reads the same;
+* `odku_refines_spec`            the memory-level Impl model computes exactly the value-level Spec
+                                 (all-or-nothing, assignments left to right against old ++ VALUES);
+* `odku_failed_stmt_invisible`   a failed statement leaves the visible table as it was;
+* `odku_history_refines`         the same along every history of statements;
+* `spare_capacity_arises`        non-vacuity: a row stored by the path has spare capacity, the next
+                                 accumulator built on it IS the stored array;
+* `inplace_assignment_breaks_atomicity`  the variant of `SetField` that assigns into the accumulator
+                                 in place (not in the source) violates all of the above.
+
 The full statement `stmt_atomic_full` (no guard) is FALSE on the unchanged tree:
 * `finding_index_rows_shared_with_snapshot` — witness: rows 5,7 stored, a statement inserts key 1,
   reads through `IndexedAccess` (early `ApplyEdits`: rows re-sorted, index rows relocated *in
@@ -29,6 +48,7 @@ The full statement `stmt_atomic_full` (no guard) is FALSE on the unchanged tree:
 -/
 import Gms.Model.MemIndex
 import Gms.Lemmas.MemTable
+import Gms.Lemmas.RowAlias
 import Gms.Generated.C15
 
 namespace Gms.MemIndex
@@ -289,6 +309,33 @@ theorem facts_match :
     Generated.C15.klApplyEdits = ["deleteHelper", "insertHelper", "tableData.sortSecondaryIndexes", "table.replaceData"] := by
   decide
 
+/-- Who writes into the cells of a row on the ON DUPLICATE KEY UPDATE path (the shape
+`Gms/Model/RowAlias.lean` transliterates): `SetField` has a single entry point that is handed a
+row, `Eval`; its only element write goes into `updatedRow`, which is `row.Copy()`; `Row.Copy` is
+`NewRow` = `make` + `copy` (a fresh array); `applyUpdates` calls nothing but `Eval` on the
+accumulator (plus the IGNORE helpers), re-binds the accumulator to the returned row and writes no
+element; `handleOnDuplicateKeyUpdate` builds the accumulator by `append(oldRow, newRow...)`, cuts
+the updated row out as `updateAcc[:len(oldRow)]`, hands it to `updater.Update` and writes no
+element; `insertIter.Next` writes elements of the incoming row / the REPLACE result only, and the
+`Existing` row of a unique-key error is only read (`Delete`, `copy(toReturn, …)`) or passed on. -/
+theorem facts_match_alias :
+    Generated.C15.setFieldTakesRow = ["Eval"] ∧
+    Generated.C15.setFieldElementWrites = ["Eval:updatedRow"] ∧
+    Generated.C15.setFieldCopies = ["Eval:updatedRow := row.Copy()"] ∧
+    Generated.C15.rowCopyBody = ["return NewRow(r...)"] ∧
+    Generated.C15.newRowAllocs = ["make(Row, len(values))", "copy(row, values)"] ∧
+    Generated.C15.applyUpdatesCalls = ["convertDataAndWarn", "getFieldIndexFromUpdateExpr", "updateExpr.Eval"] ∧
+    Generated.C15.applyUpdatesAccAssigns = ["val.(sql.Row)"] ∧
+    Generated.C15.applyUpdatesElementWrites = [] ∧
+    Generated.C15.odkuAccumulators = ["append(oldRow, newRow...)", "updateAcc"] ∧
+    Generated.C15.odkuEvalRow = ["updateAcc[:len(oldRow)]", "updateAcc[:len(oldRow)]"] ∧
+    Generated.C15.odkuStores = ["i.updater.Update(ctx, oldRow, evalRow)"] ∧
+    Generated.C15.odkuElementWrites = [] ∧
+    Generated.C15.insertNextElementWrites = ["origRow", "row", "toReturn"] ∧
+    Generated.C15.insertExistingUses = ["i.replacer.Delete(ctx, ue.Existing)", "copy(toReturn, ue.Existing)",
+      "i.handleOnDuplicateKeyUpdate(ctx, uniqueKeyError.Existing, row)"] := by
+  decide
+
 /-! ## The property -/
 
 /-- A failed statement restores the table data by value: partitions and, per index, the
@@ -384,6 +431,147 @@ theorem index_keys_stable (env : Env) (st : St) (stmt : MemIndex.Stmt) : KeysKep
   split
   · exact h1
   · exact KeysKept.trans h1 (keysKept_applyEdits env ((runOps env (begin st) stmt.ops).1.heap, (runOps env (begin st) stmt.ops).1.data) (runOps env (begin st) stmt.ops).1.acc)
+
+
+/-! ## Row aliasing: nobody writes into the cells of a stored row -/
+
+section Alias
+open Gms.RowAlias
+
+/-- Go's `TableEditorIter` bracket keeps the stored rows on failure and publishes the
+accumulated ones on success; either way the memory is what the statement left behind. -/
+theorem runStmt_mem (cfg : Cfg) (st : RowAlias.St) (s : RowAlias.Stmt) :
+    (RowAlias.runStmt cfg st s).1.mem = (runRows setField cfg s.asg ⟨st.mem, st.rows⟩ s.rows).1.mem := by
+  simp only [RowAlias.runStmt, runStmtG]
+  generalize runRows setField cfg s.asg ⟨st.mem, st.rows⟩ s.rows = rr
+  obtain ⟨w, f⟩ := rr
+  cases f <;> rfl
+
+/-- **Frame**: whatever a statement does — `append` in place on a stored row included — and
+however it ends, every backing array that existed before keeps its length and its first `n`
+cells. For every memory, every capacity of every stored row, every allocator slack. -/
+theorem stored_cells_never_written (cfg : Cfg) (st : RowAlias.St) (s : RowAlias.Stmt)
+    (hw : WF cfg.n st.mem st.rows) (hr : ∀ r ∈ s.rows, r.length = cfg.n) :
+    Frame cfg.n st.mem (RowAlias.runStmt cfg st s).1.mem := by
+  rw [runStmt_mem]
+  exact (runRows_spec cfg s.asg s.rows ⟨st.mem, st.rows⟩ hw hr).1
+
+/-- Hence every row of at most `n` cells that anybody still holds — the statement snapshot,
+another session's copy of the table (both share the slices with the stored rows), an earlier
+result — reads the same after the statement as before: results are independent of later statements. -/
+theorem readers_unaffected (cfg : Cfg) (st : RowAlias.St) (s : RowAlias.Stmt)
+    (hw : WF cfg.n st.mem st.rows) (hr : ∀ r ∈ s.rows, r.length = cfg.n)
+    (sl : Slice) (hv : Valid st.mem sl) (hl : sl.len ≤ cfg.n) :
+    view (RowAlias.runStmt cfg st s).1.mem sl = view st.mem sl :=
+  view_of_frame (stored_cells_never_written cfg st s hw hr) hv hl
+
+/-- **Refinement**: the memory-level Impl model (slices, in-place `append`, copying `SetField`)
+computes exactly the value-level Spec: same verdict, same visible table; and the table stays
+well-formed. -/
+theorem odku_refines_spec (cfg : Cfg) (st : RowAlias.St) (s : RowAlias.Stmt)
+    (hw : WF cfg.n st.mem st.rows) (hr : ∀ r ∈ s.rows, r.length = cfg.n) :
+    visible (RowAlias.runStmt cfg st s).1 = (RowAlias.specStmt cfg (visible st) s).1 ∧
+    (RowAlias.runStmt cfg st s).2 = (RowAlias.specStmt cfg (visible st) s).2 ∧
+    WF cfg.n (RowAlias.runStmt cfg st s).1.mem (RowAlias.runStmt cfg st s).1.rows := by
+  have h := runRows_spec cfg s.asg s.rows ⟨st.mem, st.rows⟩ hw hr
+  simp only [RowAlias.runStmt, runStmtG, visible] at h ⊢
+  generalize runRows setField cfg s.asg ⟨st.mem, st.rows⟩ s.rows = rr at h
+  obtain ⟨w, f⟩ := rr
+  obtain ⟨hf, h⟩ := h
+  rcases h with ⟨hs, hfail⟩ | ⟨t', hs, hok, hw', hv'⟩
+  · simp only at hfail hf
+    subst hfail
+    simp only [RowAlias.specStmt, hs]
+    exact ⟨visibleOf_frame hf hw, trivial, wf_of_frame hf hw⟩
+  · simp only at hok hw' hv'
+    subst hok
+    simp only [RowAlias.specStmt, hs]
+    exact ⟨hv', trivial, hw'⟩
+
+/-- **Atomicity on this path**: a failed INSERT / INSERT … ON DUPLICATE KEY UPDATE leaves the
+visible table exactly as it was, at whichever row and for whichever reason it fails (NOT NULL,
+CHECK on the incoming or on the updated row, conversion, duplicate key), whatever rows it had
+updated before — including rows whose array the accumulator shared. -/
+theorem odku_failed_stmt_invisible (cfg : Cfg) (st : RowAlias.St) (s : RowAlias.Stmt)
+    (hw : WF cfg.n st.mem st.rows) (hr : ∀ r ∈ s.rows, r.length = cfg.n)
+    (hf : (RowAlias.runStmt cfg st s).2 = true) : visible (RowAlias.runStmt cfg st s).1 = visible st := by
+  have h := odku_refines_spec cfg st s hw hr
+  rw [h.1]
+  rw [h.2.1] at hf
+  simp only [RowAlias.specStmt] at hf ⊢
+  split
+  · rfl
+  · rename_i heq
+    rw [heq] at hf
+    simp at hf
+
+/-- the Spec along a history. -/
+def specHistory (cfg : Cfg) : List Row → List RowAlias.Stmt → List Row
+  | t, [] => t
+  | t, s :: ss => specHistory cfg (RowAlias.specStmt cfg t s).1 ss
+
+/-- …and along every history of statements (each failed one is a no-op, each successful one
+applies the Spec), starting from any well-formed table. -/
+theorem odku_history_refines (cfg : Cfg) (ss : List RowAlias.Stmt) (st : RowAlias.St)
+    (hw : WF cfg.n st.mem st.rows) (hr : ∀ s ∈ ss, ∀ r ∈ s.rows, r.length = cfg.n) :
+    visible (RowAlias.runHistory cfg st ss) = specHistory cfg (visible st) ss := by
+  induction ss generalizing st with
+  | nil => rfl
+  | cons s ss ih =>
+    have h := odku_refines_spec cfg st s hw (hr s List.mem_cons_self)
+    simp only [RowAlias.runHistory, specHistory]
+    rw [ih _ h.2.2 (fun x hx => hr x (List.mem_cons_of_mem _ hx)), h.1]
+
+/-! ### Non-vacuity, and what the theorems exclude -/
+
+def cfgA : Cfg := { n := 2, nn := [1], ck := some (1, 100) }
+
+/-- a table whose row 1 has been rewritten once by ON DUPLICATE KEY UPDATE. -/
+def stA : RowAlias.St :=
+  RowAlias.runHistory cfgA ⟨[], []⟩ [.ins [[.int 1, .int 9], [.int 2, .int 20]], .odku [[.int 1, .int 0]] [.add 1 1]]
+
+/-- updates row 1 again, then fails on its second row (CHECK). -/
+def stmtA : RowAlias.Stmt := .odku [[.int 1, .int 0], [.int 3, .int 150]] [.add 1 1]
+
+example : visible stA = [[.int 1, .int 10], [.int 2, .int 20]] ∧ WF cfgA.n stA.mem stA.rows := by
+  refine ⟨by decide, ?_⟩
+  intro s hs
+  have : s = ⟨3, 2⟩ ∨ s = ⟨1, 2⟩ := by
+    have h : stA.rows = [⟨3, 2⟩, ⟨1, 2⟩] := by decide
+    rw [h] at hs
+    simpa using hs
+  rcases this with h | h <;> subst h <;> decide
+
+/-- A row stored by the ON DUPLICATE KEY UPDATE path has spare capacity (2 cells here, the
+length of the VALUES row), and the accumulator the next such statement builds on it is the stored
+array itself: the premise "the scratch row is private" is false, the theorems above do not rely on it. -/
+theorem spare_capacity_arises :
+    stA.rows.head? = some ⟨3, 2⟩ ∧ capOf stA.mem ⟨3, 2⟩ = 4 ∧
+    (appendS stA.mem ⟨3, 2⟩ [.int 1, .int 0] 0).2.arr = 3 := by
+  decide
+
+/-- the failing statement on the Impl model: failed, nothing visible changed (an instance of
+`odku_failed_stmt_invisible` whose accumulator aliased the stored row). -/
+example : (RowAlias.runStmt cfgA stA stmtA).2 = true ∧ visible (RowAlias.runStmt cfgA stA stmtA).1 = visible stA := by
+  decide
+
+/-- a successful statement does change the table. -/
+example : visible (RowAlias.runStmt cfgA stA (.odku [[.int 1, .int 0], [.int 3, .int 50]] [.add 1 1])).1 =
+    [[.int 1, .int 11], [.int 2, .int 20], [.int 3, .int 50]] := by
+  decide
+
+/-- **What the frame theorem excludes.** With a `SetField` that assigns into the accumulator in
+place (`setFieldInPlace`, not in the source: an allocation "optimisation" of `applyUpdates`) the
+same failing statement changes the stored row 1 behind the accumulator's back: the statement
+reports a failure and the table reads (1, 11). Copying in `SetField.Eval` is what atomicity of
+this path rests on. -/
+theorem inplace_assignment_breaks_atomicity :
+    (runStmtG setFieldInPlace cfgA stA stmtA).2 = true ∧
+    visible (runStmtG setFieldInPlace cfgA stA stmtA).1 = [[.int 1, .int 11], [.int 2, .int 20]] ∧
+    visible stA = [[.int 1, .int 10], [.int 2, .int 20]] := by
+  decide
+
+end Alias
 
 /-! ## Non-vacuity and the finding -/
 
